@@ -75,10 +75,24 @@ type crashSentinel struct{}
 
 type faultDB struct {
 	basedb.Database
-	mu       sync.Mutex
-	cut      int // -1: off; k: die when k writes of the current call have been applied
-	applied  int
-	failRead bool
+	mu        sync.Mutex
+	cut       int // -1: off; k: die when k writes of the current call have been applied
+	applied   int
+	failRead  bool
+	failWrite bool // every write of the current call is refused with an error (nothing stored)
+	refused   int  // writes refused during the current call
+}
+
+var errWriteRefused = fmt.Errorf("injected write failure")
+
+func (f *faultDB) refuse() bool {
+	f.mu.Lock()
+	defer f.mu.Unlock()
+	if f.failWrite {
+		f.refused++
+		return true
+	}
+	return false
 }
 
 func (f *faultDB) before() {
@@ -99,6 +113,9 @@ func (f *faultDB) after() {
 }
 
 func (f *faultDB) Set(prefix, key, value []byte) error {
+	if f.refuse() {
+		return errWriteRefused
+	}
 	f.before()
 	if err := f.Database.Set(prefix, key, value); err != nil {
 		return err
@@ -108,6 +125,9 @@ func (f *faultDB) Set(prefix, key, value []byte) error {
 }
 
 func (f *faultDB) Delete(prefix, key []byte) error {
+	if f.refuse() {
+		return errWriteRefused
+	}
 	f.before()
 	if err := f.Database.Delete(prefix, key); err != nil {
 		return err
@@ -117,6 +137,9 @@ func (f *faultDB) Delete(prefix, key []byte) error {
 }
 
 func (f *faultDB) SetMany(prefix []byte, n int, next func(int) (basedb.Obj, error)) error {
+	if f.refuse() {
+		return errWriteRefused
+	}
 	f.before()
 	if err := f.Database.SetMany(prefix, n, next); err != nil {
 		return err
@@ -154,6 +177,7 @@ func (f *faultDB) UsingReader(r basedb.Reader) basedb.Reader {
 type env struct {
 	cut   int // -1 = none
 	rfail bool
+	wfail bool // the database refuses the writes of this call (sign / reactivate only)
 }
 
 func (e env) String() string {
@@ -165,7 +189,11 @@ func (e env) String() string {
 	if e.rfail {
 		r = 1
 	}
-	return fmt.Sprintf("%s %d", c, r)
+	wf := 0
+	if e.wfail {
+		wf = 1
+	}
+	return fmt.Sprintf("%s %d %d", c, r, wf)
 }
 
 type sig struct {
@@ -268,6 +296,8 @@ func classify(err error) string {
 		return "noacct"
 	case strings.Contains(s, "too far into the future"):
 		return "far"
+	case strings.Contains(s, "injected write failure"):
+		return "writeerr"
 	case strings.Contains(s, "could not retrieve highest attestation"), strings.Contains(s, "could not retrieve highest proposal"):
 		return "readerr"
 	case strings.Contains(s, "is not found, can't determine"):
@@ -288,6 +318,7 @@ func classify(err error) string {
 func (w *world) guarded(e env, f func() (released bool, err error)) (res string) {
 	w.db.mu.Lock()
 	w.db.cut, w.db.applied, w.db.failRead = e.cut, 0, e.rfail
+	w.db.failWrite, w.db.refused = e.wfail, 0
 	w.db.mu.Unlock()
 	crashed := false
 	func() {
@@ -311,7 +342,7 @@ func (w *world) guarded(e env, f func() (released bool, err error)) (res string)
 		}
 	}()
 	w.db.mu.Lock()
-	w.db.cut, w.db.failRead = -1, false
+	w.db.cut, w.db.failRead, w.db.failWrite = -1, false, false
 	w.db.mu.Unlock()
 	if crashed {
 		w.restartSigner()
@@ -461,6 +492,9 @@ func (w *world) signAtt(k int, s, t uint64, e env) {
 		if bad {
 			w.out.ViolF("share %d released att(%d,%d) although its highest-attestation record was %s", k, s, t, why)
 		}
+		if w.db.refused > 0 {
+			w.out.ViolF("share %d released att(%d,%d) although the write of its highest-attestation record was refused", k, s, t)
+		}
 		w.monitor(k, sig{att: true, a: s, b: t})
 	}
 }
@@ -479,6 +513,9 @@ func (w *world) signBlk(k int, sl uint64, e env) {
 	if res == "rel" {
 		if bad {
 			w.out.ViolF("share %d released block(%d) although its highest-proposal record was %s", k, sl, why)
+		}
+		if w.db.refused > 0 {
+			w.out.ViolF("share %d released block(%d) although the write of its highest-proposal record was refused", k, sl)
 		}
 		w.monitor(k, sig{a: sl})
 	}
@@ -535,6 +572,16 @@ func genEnv(r *hx.Rand, faults bool) env {
 	}
 	if r.Chance(1, 25) {
 		e.rfail = true
+	}
+	return e
+}
+
+// genEnvW: for the calls whose only state is the database (sign, reactivate) the database may also
+// refuse the call's writes.
+func genEnvW(r *hx.Rand, faults bool) env {
+	e := genEnv(r, faults)
+	if faults && e.cut < 0 && r.Chance(1, 12) {
+		e.wfail = true
 	}
 	return e
 }
@@ -691,12 +738,12 @@ func gen(out *hx.Out, seed uint64, n int) {
 				}
 			case x < 54:
 				if s, t, ok := w.genAtt(r, k, valid); ok {
-					w.signAtt(k, s, t, genEnv(r, faults))
+					w.signAtt(k, s, t, genEnvW(r, faults))
 				} else {
 					w.tick(32)
 				}
 			case x < 70:
-				w.signBlk(k, w.genSlot(r, k, valid), genEnv(r, faults))
+				w.signBlk(k, w.genSlot(r, k, valid), genEnvW(r, faults))
 			case x < 79:
 				w.add(k, genEnv(r, faults))
 			case x < 83:
@@ -708,7 +755,7 @@ func gen(out *hx.Out, seed uint64, n int) {
 					w.add(k, genEnv(r, faults))
 				}
 			case x < 87:
-				w.react(k, genEnv(r, faults))
+				w.react(k, genEnvW(r, faults))
 			case x < 91:
 				w.restart()
 			case x < 94:
@@ -964,6 +1011,9 @@ func parseEnv(w []string) env {
 	}
 	if len(w) > 1 && w[1] == "1" {
 		e.rfail = true
+	}
+	if len(w) > 2 && w[2] == "1" {
+		e.wfail = true
 	}
 	return e
 }
